@@ -152,10 +152,6 @@ def _convolve_model_dir_2(model_dir, filters, overwrite=False, memmap=True):
     # Set up list of binned filters
     binned_filters = [f.rebin(sed_cube.nu) for f in filters]
 
-    # We do the unit conversion - if needed - at the last minute
-    val_factor = sed_cube.val.unit.to(u.mJy)
-    unc_factor = sed_cube.unc.unit.to(u.mJy)
-
     # Loop over apertures
     for i_ap in ProgressBar(range(sed_cube.n_ap)):
 
@@ -166,8 +162,11 @@ def _convolve_model_dir_2(model_dir, filters, overwrite=False, memmap=True):
 
             response = f.response.astype(sed_val.dtype)
 
-            fluxes[i].flux[:, i_ap] = np.sum(sed_val * response, axis=1) * val_factor
-            fluxes[i].error[:, i_ap] = np.sqrt(np.sum((sed_unc * response) ** 2, axis=1)) * unc_factor
+            # Note that sed_val and sed_unc carry the units of the cube, so the
+            # conversion to the units of the convolved fluxes (mJy) is done by
+            # the assignment itself.
+            fluxes[i].flux[:, i_ap] = np.sum(sed_val * response, axis=1)
+            fluxes[i].error[:, i_ap] = np.sqrt(np.sum((sed_unc * response) ** 2, axis=1))
 
     for i, f in enumerate(binned_filters):
 
